@@ -5,13 +5,13 @@ import io
 import re
 from fractions import Fraction
 from .. import spec
-from ..gen import G, Qty, WINDOW
+from ..gen import fmt_date_layout, G, Qty, WINDOW
 from ..common import run_apps, app, out_of, sig
 from ..core import unhx
 
 THEOREMS = ['dayAcc_is_register', 'totals_eq_sum_daily', 'single_row_eq_day_totals', 'bal_single_total_eq_period_total', 'quantity_eq_sum_csv_rows', 'summary_eq_register_day', 'unresolved_eq_logged_minus_book', 'stats_counts_headings', 'quantity_eq_balance_leaf', 'stats_days_ago', 'single_csv_same_figures']
 LEVEL = 'proof'
-RULE = ('random logs x nested books x periods x elements; every relation is evaluated between two independent code paths of the program on the same input '
+RULE = ('random logs (4 % with 100 to 600 headings) x nested books x periods x elements; every relation is evaluated between two independent code paths of the program on the same input '
         '(no reference model in between): totals vs sum of daily register totals vs reg -s rows (text and --csv) vs bal -s total; quantity vs balance leaves vs csv log; element-total vs resolved csv; '
         'summary vs register; unresolved vs logged minus book; stats vs headings; non-trivial = >= 2 days and an element with both signs; distinct by input hash')
 ASSUMPTIONS = ['quantities have at most one decimal and recipe coefficients are integers, so every printed figure is exact and relations are checked with equality']
@@ -72,8 +72,9 @@ def gen(g, count):
         if not spec.no_prefix(foods):
             continue
         log = []
-        for _ in range(r.randint(1, 5)):
-            log.append((r.choice(WINDOW[:5]), [(r.choice(foods), qty1(g)) for _ in range(r.randint(0, 6))], []))
+        long_log = r.random() < 0.04        # hundreds of headings: reports that accumulate over the period are printed once, at the end
+        for _ in range(r.randint(1, 5) if not long_log else r.choice([100, 101, 250, 512, 513, 600])):
+            log.append((r.choice(WINDOW[:5]), [(r.choice(foods), qty1(g)) for _ in range(r.randint(0, 6) if not long_log else r.randint(0, 2))], []))
         files = {b'food.yaml': g.render_book(book, varied=False), b'log.yaml': g.render_log(log, varied=False)}
         period = {}
         if r.random() < 0.4:
@@ -233,6 +234,38 @@ def run(ctx):
             ctx.mark_nontrivial(sig(grp['totals'].files, info['period']))
         ctx.count('days:%d' % len(info['log']))
     ctx.sample({'cmd': groups[0][0]['bal -s'].shell(), 'log': groups[0][0]['totals'].files[b'log.yaml'].decode('utf-8', 'replace')[:400]})
+    stats_distances(ctx, g)
+
+
+FAR = [(1, 1, 1), (999, 12, 31), (1582, 10, 15), (1799, 12, 31), (1800, 3, 1), (1899, 12, 31), (1900, 2, 28), (1900, 3, 1), (1901, 1, 1), (1970, 1, 1), (1999, 12, 31),
+       (2000, 2, 29), (2000, 3, 1), (2020, 2, 29), (2021, 1, 1), (2099, 12, 31), (2100, 2, 28), (2100, 3, 1), (2101, 1, 1), (2400, 2, 29), (9999, 12, 31)]
+MAXDAYS = 106751        # a Go Duration holds 292 years: the distance saturates there
+
+
+def stats_distances(ctx, g):
+    """the `(N days ago)` figures of stats are distances in calendar days, also across century years and leap days, also when the
+    record lies after the current date"""
+    r = g.r
+    L = '2006/01/02'
+    cases = []
+    for _ in range(40 if ctx.tier == 'quick' else 200):
+        first, last, today = (datetime.date(*r.choice(FAR)) for _ in range(3))
+        files = {b'food.yaml': b'', b'log.yaml': ('%s:\n  a: 1\n%s:\n  b: 2\n' % (fmt_date_layout(first, L), fmt_date_layout(last, L))).encode()}
+        c = app(['stats'], files, g={'today': fmt_date_layout(today, L), 'noColor': True}, kind='stats distances', disk=True)
+        c.meta.update({'first': first, 'last': last, 'today': today})
+        cases.append(c)
+    impl, model = run_apps(ctx, cases)
+    for c in cases:
+        st = out_of(impl[c.id]).decode('utf-8', 'replace').split('\n')
+        def dist(d):
+            n = (c.meta['today'] - d).days
+            return max(-MAXDAYS, min(MAXDAYS, n))
+        exp = ['  First record:       %s (%d days ago)' % (fmt_date_layout(c.meta['first'], L), dist(c.meta['first'])),
+               '  Last record:        %s (%d days ago)' % (fmt_date_layout(c.meta['last'], L), dist(c.meta['last']))]
+        if impl[c.id].get('status') != 'ok' or not all(l in st for l in exp):
+            ctx.problem('oracle', 'stats: the distance in days between the current date and a record is not the calendar distance', c,
+                        {'stats': '\n'.join(st), 'expected_lines': exp}, signature='stats-distance')
+        ctx.mark_nontrivial(('stats', c.meta['first'], c.meta['last'], c.meta['today']))
 
 
 def search(ctx, seed):
